@@ -55,6 +55,7 @@ func problemFor(names []string, format string, a ...any) {
 }
 
 func parseFile(rel string) *ast.File {
+	scanConsts(filepath.Dir(filepath.Join(repo, rel)))
 	f, err := parser.ParseFile(fset, filepath.Join(repo, rel), nil, parser.SkipObjectResolution)
 	if err != nil {
 		problem("%s: %v", rel, err)
@@ -89,16 +90,115 @@ func findFunc(f *ast.File, recv, name string) *ast.FuncDecl {
 	return nil
 }
 
-func litVal(e ast.Expr) (uint64, bool) {
-	if p, ok := e.(*ast.ParenExpr); ok {
-		return litVal(p.X)
+// constDefs: every `const name = expr` of the packages gofacts has looked at (name -> defining expressions).
+// A named constant is folded only when all its definitions (there can be several across packages) agree.
+var constDefs = map[string][]ast.Expr{}
+var constDirs = map[string]bool{}
+
+func scanConsts(dir string) {
+	if constDirs[dir] {
+		return
 	}
-	bl, ok := e.(*ast.BasicLit)
-	if !ok || bl.Kind != token.INT {
+	constDirs[dir] = true
+	ents, err := os.ReadDir(dir)
+	if err != nil {
+		return
+	}
+	for _, e := range ents {
+		n := e.Name()
+		if e.IsDir() || !strings.HasSuffix(n, ".go") || strings.HasSuffix(n, "_test.go") {
+			continue
+		}
+		f, err := parser.ParseFile(fset, filepath.Join(dir, n), nil, parser.SkipObjectResolution)
+		if err != nil {
+			continue
+		}
+		ast.Inspect(f, func(x ast.Node) bool {
+			gd, ok := x.(*ast.GenDecl)
+			if !ok || gd.Tok != token.CONST {
+				return true
+			}
+			for _, sp := range gd.Specs {
+				vs, ok := sp.(*ast.ValueSpec)
+				if !ok {
+					continue
+				}
+				for i, id := range vs.Names {
+					if i < len(vs.Values) {
+						constDefs[id.Name] = append(constDefs[id.Name], vs.Values[i])
+					}
+				}
+			}
+			return true
+		})
+	}
+}
+
+// litVal evaluates an integer constant expression: literals, named constants of the scanned packages,
+// parentheses, integer conversions and + - * << | over those.
+func litVal(e ast.Expr) (uint64, bool) { return litValD(e, 0) }
+
+func litValD(e ast.Expr, depth int) (uint64, bool) {
+	if depth > 16 {
 		return 0, false
 	}
-	v, err := strconv.ParseUint(strings.ReplaceAll(bl.Value, "_", ""), 0, 64)
-	return v, err == nil
+	switch n := e.(type) {
+	case *ast.ParenExpr:
+		return litValD(n.X, depth+1)
+	case *ast.BasicLit:
+		if n.Kind != token.INT {
+			return 0, false
+		}
+		v, err := strconv.ParseUint(strings.ReplaceAll(n.Value, "_", ""), 0, 64)
+		return v, err == nil
+	case *ast.Ident:
+		defs := constDefs[n.Name]
+		if len(defs) == 0 {
+			return 0, false
+		}
+		var val uint64
+		for i, d := range defs {
+			v, ok := litValD(d, depth+1)
+			if !ok || (i > 0 && v != val) {
+				return 0, false
+			}
+			val = v
+		}
+		return val, true
+	case *ast.CallExpr:
+		switch selName(n.Fun) {
+		case "int", "uint", "uint64", "int64", "uint32", "int32", "uint16", "uint8", "byte":
+			if len(n.Args) == 1 {
+				return litValD(n.Args[0], depth+1)
+			}
+		}
+		return 0, false
+	case *ast.BinaryExpr:
+		a, ok1 := litValD(n.X, depth+1)
+		b, ok2 := litValD(n.Y, depth+1)
+		if !ok1 || !ok2 {
+			return 0, false
+		}
+		switch n.Op {
+		case token.ADD:
+			return a + b, true
+		case token.SUB:
+			if b > a {
+				return 0, false
+			}
+			return a - b, true
+		case token.MUL:
+			return a * b, true
+		case token.SHL:
+			if b >= 64 {
+				return 0, false
+			}
+			return a << b, true
+		case token.OR:
+			return a | b, true
+		}
+	}
+	return 0, false
 }
 
 // constValue finds `const name [type] = <int literal>` anywhere under n.
@@ -212,6 +312,10 @@ func murmurFacts(fc *facts) {
 	}
 	fc.set("murmurM", mulM, haveMA, "h1*M + N")
 	fc.set("murmurN", addN, haveMA, "h1*M + N")
+	// the mixing steps multiply by the named constants c1/c2 (folded by litVal); the finalizer's factors come last
+	for len(muls) > 2 && ok1 && ok2 && (muls[0] == c1 || muls[0] == c2) {
+		muls = muls[1:]
+	}
 	if len(shifts) == 3 && len(muls) == 2 {
 		fc.set("murmurS1", shifts[0], true, "")
 		fc.set("murmurF1", muls[0], true, "")
@@ -311,6 +415,9 @@ func (x *xlate) expr(e ast.Expr) string {
 		}
 		if v, ok := x.spec.idents[s]; ok {
 			return v
+		}
+		if v, ok := litVal(e); ok {
+			return strconv.FormatUint(v, 10)
 		}
 		return x.fail("unknown identifier %s", s)
 	case *ast.UnaryExpr:
